@@ -416,7 +416,7 @@ def provide (G : Graph) : Nat â†’ List Loc â†’ Loc â†’ List Loc â†’ List Instr Ã
         (([] : List Instr), opened)
       let code := preInstrs nd ++ sub.1 ++ [.cached nd.site ty nd.children.length nd.kind]
       -- track_response
-      if sub.2.contains loc then (code ++ [.stubBind loc], sub.2.erase loc) else (code, sub.2)
+      if sub.2.contains loc then (code ++ [.stubBind loc], sub.2.filter (fun e => e != loc)) else (code, sub.2)
 
 def compile (G : Graph) (fuel : Nat) (ty : TyId) : List Instr := (provide G fuel [] (G.topLoc ty) []).1
 
